@@ -282,6 +282,500 @@ class MultiVectors(Stream):
             if pl["a"] and pl["b"] else None
 
 
+# {{{ extension: Fraction coefficients, the remaining operations, a ring with zero divisors
+
+def frac_str(x):
+    """canonical text of an exact coefficient (int or Fraction): 'n' or 'n/d'"""
+    return str(Fraction(x))
+
+
+def fmv_sx(d):
+    return "(" + " ".join(f"({k} {frac_str(v)})" for k, v in d.items()) + ")"
+
+
+def rand_frac(rng, zero_ok=True):
+    while True:
+        v = Fraction(rng.randint(-4, 4), rng.choice([1, 1, 2, 3]))
+        if zero_ok or v != 0:
+            return v
+
+
+def rand_fmv(rng, dims, maxterms=4, stored_zero=0.1):
+    """a dict bitmap -> 'n/d' in insertion order; rarely with a stored zero coefficient"""
+    d = {}
+    for _ in range(rng.randint(0, maxterms)):
+        v = rand_frac(rng, zero_ok=rng.random() < stored_zero)
+        d[rng.randrange(2 ** dims)] = str(v)
+    return d
+
+
+def rand_vector(rng, dims):
+    d = {}
+    for i in rng.sample(range(dims), rng.randint(1, dims)) if dims else []:
+        d[1 << i] = str(rand_frac(rng, zero_ok=False))
+    return d
+
+
+QMETRIC_VALUES = ["1", "-1", "0", "2", "1", "-1", "1/2", "-3"]
+
+
+def fspace(dims, metric):
+    from pymbolic.geometric_algebra import Space
+    vals = [Fraction(m) for m in metric]
+    vals = [int(v) if v.denominator == 1 else v for v in vals]
+    return Space(dims, np.diag(np.array(vals, dtype=object)) if dims
+                 else np.zeros((0, 0), dtype=object))
+
+
+def fmake(d, sp):
+    from pymbolic.geometric_algebra import MultiVector
+    return MultiVector({int(k): Fraction(v) for k, v in d.items()}, sp)
+
+
+def list_mul(x, y, metric):
+    """independent geometric product of two coefficient dicts (bitmap -> coefficient) through the
+    list-based blade multiplication; zero coefficients dropped"""
+    out = {}
+    for ka, va in x.items():
+        for kb, vb in y.items():
+            bits, c = list_product(blade_list(ka), blade_list(kb), metric)
+            out[bits] = out.get(bits, 0) + c * va * vb
+    return {k: v for k, v in out.items() if v != 0}
+
+
+def wedge_of(factors, metric):
+    """outer product of vectors (dicts bitmap -> 'n/d'): the top-grade part of their list-based
+    geometric product"""
+    acc = {0: Fraction(1)}
+    for i, f in enumerate(factors):
+        acc = {k: v for k, v in list_mul(acc, {int(k): Fraction(v) for k, v in f.items()},
+                                         metric).items() if grade(k) == i + 1}
+    return acc
+
+
+class _ImplOps:
+    """the answers of the real code for the `c18AllOps` list of the driver, in the same order"""
+
+    exc_names = (ZeroDivisionError, NotImplementedError, ValueError, RuntimeError)
+
+    def sh(self, m):
+        return "(" + " ".join(f"({k} {self.cs(v)})" for k, v in data_of(m).items()) + ")"
+
+    def tr(self, f, wrap=None):
+        try:
+            r = f()
+        except self.exc_names as e:
+            return type(e).__name__
+        return wrap(r) if wrap else r
+
+    def xp(self, a, r):
+        from pymbolic.geometric_algebra import MultiVector
+
+        def go():
+            v = a.xproject(r)
+            if isinstance(v, MultiVector):
+                return "(mv " + self.sh(v) + ")"
+            if isinstance(v, np.ndarray):
+                return "(" + " ".join(["vector"] + [self.cs(x) for x in v]) + ")"
+            return "(scalar " + self.cs(v) + ")"
+        return self.tr(go)
+
+    def all_ops(self, a, b, dims, n, r, with_inv):
+        sh, tr, cs = self.sh, self.tr, self.cs
+        low = lambda v: "true" if v else "false"  # noqa: E731
+        parts = [sh(a * b), sh(a ^ b), sh(a | b), sh(a << b), sh(a >> b),
+                 tr(lambda: cs(a.scalar_product(b))), sh(a.rev()), sh(a.invol()),
+                 tr(lambda: cs(a.norm_squared()))]
+        if with_inv:
+            parts += [tr(lambda: sh(a.inv())), tr(lambda: sh(a / b))]
+        else:
+            parts += [None, "skip"]
+        parts += [sh(a.dual()), sh(a.dual().dual()), sh(a.I),
+                  "(" + " ".join(sh(a.project(g)) for g in range(dims + 2)) + ")",
+                  self.xp(a, 0), self.xp(a, 1), self.xp(a, r),
+                  "(" + " ".join(sh(x) for x in a.gen_blades()) + ")",
+                  "(" + " ".join(sh(x) for x in a.gen_blades(r)) + ")",
+                  tr(lambda: cs(a.as_scalar())), tr(lambda: sh(a ** n)),
+                  sh(a.odd()), sh(a.even())]
+        pg = a.get_pure_grade()
+        parts.append("none" if pg is None else str(pg))
+        parts += [low(a == b), low(a == a), low(bool(a)), low(a == 0), low(a == 1),
+                  sh(-a), sh(a + b), sh(a - b)]
+        return parts
+
+    @staticmethod
+    def agree_lists(model, impl, skip=()):
+        from ..sexp import loads
+        m, i = loads(model), loads(impl)
+        if len(m) != len(i):
+            return "diff"
+        for idx, (x, y) in enumerate(zip(m, i)):
+            if idx in skip:
+                continue
+            if idx >= len(m) - 2:
+                # a + b / a - b iterate a Python set: compare as mappings
+                if sorted(map(tuple, x)) != sorted(map(tuple, y)):
+                    return "diff"
+            elif x != y:
+                return "diff"
+        return "ok"
+
+
+class FractionMultiVectors(_ImplOps, Stream):
+    """multivectors with Fraction coefficients (exact; stored zeros included) over diagonal metrics
+    with zero, negative and fractional entries: EVERY operation of the model — the six products,
+    scalar_product, rev, invol, norm_squared, inv (the divided inverse), /, dual, I, project(r) for
+    every r, xproject, gen_blades, as_scalar, **, odd/even, ==, bool, +, - — compared exactly with
+    the driver, and their defining identities checked on the real objects"""
+    name = "mv-fraction"
+
+    cs = staticmethod(frac_str)
+
+    def cases(self, rng, tier):
+        n = 500 if tier == "quick" else 8000
+        for i in range(n):
+            dims = rng.randint(0, 4)
+            metric = [rng.choice(QMETRIC_VALUES) for _ in range(dims)]
+            kind = i % 5
+            if kind == 0 and dims:          # a vector / a blade: inv returns
+                a = rand_vector(rng, dims)
+            elif kind == 1:
+                a = {rng.randrange(2 ** dims): str(rand_frac(rng, zero_ok=False))}
+            else:
+                a = rand_fmv(rng, dims)
+            if kind == 2 and dims:
+                b = rand_vector(rng, dims)
+            elif kind == 3:
+                b = {rng.randrange(2 ** dims): str(rand_frac(rng, zero_ok=False))}
+            else:
+                b = rand_fmv(rng, dims)
+            yield {"dims": dims, "metric": metric, "a": a, "b": b,
+                   "n": rng.choice([-1, 0, 1, 2, 3, 4, 5, 6, 7]), "r": rng.randint(0, dims + 1)}
+        # blades given by their vector factors (outer product computed independently here)
+        for _ in range(40 if tier == "quick" else 600):
+            dims = rng.randint(2, 4)
+            metric = [rng.choice(QMETRIC_VALUES) for _ in range(dims)]
+            factors = [rand_vector(rng, dims) for _ in range(rng.randint(2, min(3, dims)))]
+            a = wedge_of(factors, [Fraction(m) for m in metric])
+            yield {"dims": dims, "metric": metric, "a": {k: str(v) for k, v in a.items()},
+                   "b": rand_fmv(rng, dims), "n": 2, "r": len(factors), "factors": factors}
+        # every basis blade of dims <= 3 (4 thorough) under mixed metrics: dual, inv, pow, I
+        for dims in range(0, 4 if tier == "quick" else 5):
+            for metric in (["1"] * dims, ["-1", "2", "0", "1/2"][:dims], ["-1"] * dims):
+                for k in range(2 ** dims):
+                    yield {"dims": dims, "metric": metric, "a": {k: "2/3"}, "b": {k ^ 1 if dims else 0: "-1"},
+                           "n": 3, "r": bin(k).count("1")}
+
+    def request(self, pl):
+        m = "(" + " ".join(pl["metric"]) + ")"
+        a = {int(k): v for k, v in pl["a"].items()}
+        b = {int(k): v for k, v in pl["b"].items()}
+        return f"(ga-mvq {m} {pl['dims']} {fmv_sx(a)} {fmv_sx(b)} {pl['n']} {pl['r']})"
+
+    def _objs(self, pl):
+        sp = fspace(pl["dims"], pl["metric"])
+        return sp, fmake(pl["a"], sp), fmake(pl["b"], sp)
+
+    def run_impl(self, pl):
+        _sp, a, b = self._objs(pl)
+        return "(" + " ".join(self.all_ops(a, b, pl["dims"], pl["n"], pl["r"], True)) + ")"
+
+    def agree(self, model, impl, pl):
+        return "ok" if model == impl else self.agree_lists(model, impl)
+
+    def oracle(self, pl):  # noqa: C901
+        from pymbolic.geometric_algebra import MultiVector
+        sp, a, b = self._objs(pl)
+        dims, n = pl["dims"], pl["n"]
+        metric = [Fraction(m) for m in pl["metric"]]
+        full = 2 ** dims - 1
+
+        def coeffs(m):
+            return {k: Fraction(v) for k, v in data_of(m).items() if v != 0}
+
+        ca, cb = coeffs(a), coeffs(b)
+        det = Fraction(1)
+        for g in metric:
+            det *= g
+        rsign = -1 if (dims * (dims - 1) // 2) % 2 else 1
+        # dual: A * rev(I) by the list-based blade multiplication
+        want = list_mul(ca, {full: Fraction(rsign)}, metric)
+        if coeffs(a.dual()) != want:
+            return Failure("dual", f"dual({a!r}) = {a.dual()!r}, list-based A*rev(I) gives {want}", pl)
+        want = {k: rsign * det * v for k, v in ca.items() if rsign * det * v != 0}
+        if coeffs(a.dual().dual()) != want:
+            return Failure("dual-dual", f"dual(dual(A)) != (-1)^(n(n-1)/2) det(g) A for {a!r}", pl)
+        if coeffs(a.I * a.I) != ({0: rsign * det} if det != 0 else {}):
+            return Failure("pseudoscalar-square", f"I*I = {a.I * a.I!r}", pl)
+        # grade projections: idempotent, orthogonal, sum to the identity
+        total = {}
+        for r in range(dims + 1):
+            p = a.project(r)
+            if any(grade(k) != r for k in data_of(p)) or \
+                    coeffs(p) != {k: v for k, v in ca.items() if grade(k) == r}:
+                return Failure("project", f"project({r}) of {a!r} is {p!r}", pl)
+            if coeffs(p.project(r)) != coeffs(p) or (r + 1 <= dims and coeffs(p.project(r + 1))):
+                return Failure("project-idempotent", f"project({r}) twice on {a!r}", pl)
+            total.update(coeffs(p))
+        if total != ca:
+            return Failure("project-sum", f"the grade projections of {a!r} do not add up to it", pl)
+        if coeffs(a.even() + a.odd()) != ca:
+            return Failure("project-sum", f"even + odd != A for {a!r}", pl)
+        blades = list(a.gen_blades())
+        acc = {}
+        for x in blades:
+            if len(data_of(x)) != 1:
+                return Failure("gen-blades", f"gen_blades yields {x!r}", pl)
+            for k, v in data_of(x).items():
+                acc[k] = acc.get(k, 0) + v
+        if {k: v for k, v in acc.items() if v != 0} != ca:
+            return Failure("gen-blades", f"gen_blades of {a!r} do not add up to it", pl)
+        # norm_squared: scalar part of rev(A)*A = sum over blades of (metric of its factors) c^2
+        want = Fraction(0)
+        for k, v in ca.items():
+            w = Fraction(1)
+            for i in blade_list(k):
+                w *= metric[i]
+            want += w * v * v
+        nsq = a.norm_squared()
+        if nsq != want or list_mul(coeffs(a.rev()), ca, metric).get(0, 0) != want:
+            return Failure("norm-squared", f"norm_squared({a!r}) = {nsq}, expected {want}", pl)
+        if a.scalar_product(b) != list_mul(ca, cb, metric).get(0, 0):
+            return Failure("scalar-product", f"scalar_product({a!r}, {b!r})", pl)
+        # as_scalar
+        try:
+            s = a.as_scalar()
+            if any(k != 0 for k in data_of(a)) or s != data_of(a).get(0, 0):
+                return Failure("as-scalar", f"as_scalar({a!r}) = {s}", pl)
+        except ValueError:
+            if all(k == 0 for k in data_of(a)):
+                return Failure("as-scalar", f"as_scalar({a!r}) raises", pl)
+        # inverse: whenever inv returns, inv(A)*A = 1 = A*inv(A)
+        known = None
+        try:
+            ai = a.inv()
+        except (ZeroDivisionError, NotImplementedError) as e:
+            ai = None
+            if len(ca) == 1 and len(data_of(a)) == 1 and nsq != 0:
+                return Failure("blade-inv-refused", f"inv({a!r}) raises for a non-null blade", pl)
+            if pl.get("factors") and nsq != 0 and ca:
+                # A is the outer product of the vectors pl["factors"]: a non-null blade
+                known = Failure("inv-nonbasis-blade-refused",
+                                f"inv({a!r}) raises {type(e).__name__} for the non-null blade "
+                                f"{' ^ '.join(map(str, pl['factors']))} (norm² {nsq})", pl)
+        if ai is not None:
+            if list_mul(coeffs(ai), ca, metric) != {0: 1} or list_mul(ca, coeffs(ai), metric) != {0: 1} \
+                    or coeffs(ai * a) != {0: 1} or coeffs(a * ai) != {0: 1}:
+                return Failure("inv", f"inv({a!r}) = {ai!r} is not an inverse", pl)
+        try:
+            q = b / a
+        except (ZeroDivisionError, NotImplementedError):
+            q = None
+        if q is not None and coeffs(q * a) != cb:
+            return Failure("truediv", f"(B / A) * A != B for A = {a!r}, B = {b!r}", pl)
+        # power: the n-fold product
+        if n >= 0:
+            want = {0: Fraction(1)}
+            for _ in range(n):
+                want = list_mul(want, ca, metric)
+            if coeffs(a ** n) != want:
+                return Failure("pow", f"{a!r} ** {n} = {a ** n!r}, n-fold product {want}", pl)
+        else:
+            try:
+                a ** n
+                return Failure("pow", "negative power returned", pl)
+            except RuntimeError:
+                pass
+        # ==, hash, bool on results
+        results = [("dual", a.dual()), ("sum", a + b), ("pow", a ** 2)]
+        if all(v != 0 for v in data_of(a).values()):
+            results.append(("project", a.project(pl["r"])))
+        for nm, r in results:
+            clean = MultiVector(dict(coeffs(r)), sp)
+            if not (r == clean) or hash(r) != hash(clean) or bool(r) != bool(coeffs(r)):
+                return Failure("result-eq-coeffwise", f"{nm} result {r!r} vs its non-zero "
+                               f"coefficients {clean!r}: ==, hash or bool differ", pl)
+        rev = MultiVector(dict(reversed(list(data_of(a).items()))), sp)
+        if not (a == rev) or hash(a) != hash(rev):
+            return Failure("hash", "the same items in another insertion order compare/hash "
+                           "differently", pl)
+        # associativity / distributivity with Fraction coefficients
+        c = a.dual() + 1
+        if coeffs((a * b) * c) != coeffs(a * (b * c)) or coeffs(a * (b + c)) != coeffs(a * b + a * c):
+            return Failure("assoc", "associativity/distributivity with Fraction coefficients", pl)
+        return known
+
+    def shrink(self, pl):
+        if pl.get("factors"):
+            return
+        for key in ("a", "b"):
+            for k in list(pl[key]):
+                if len(pl[key]) > 1:
+                    d = dict(pl[key]); del d[k]
+                    yield {**pl, key: d}
+        if pl["n"] > 2:
+            yield {**pl, "n": pl["n"] - 1}
+
+    def nontrivial_key(self, pl, model, impl):
+        return dumps([pl["dims"], pl["metric"], sorted(pl["a"].items()), sorted(pl["b"].items()),
+                      pl["n"]]) if pl["a"] else None
+
+    def stats(self, pl, mo, io, acc):
+        from ..sexp import loads
+        try:
+            r = loads(io)[9]
+        except Exception:
+            return
+        k = r if isinstance(r, str) else "returned"
+        acc.setdefault("inv", {})
+        acc["inv"][k] = acc["inv"].get(k, 0) + 1
+
+
+class Zn:
+    """the ring Z/6 (zero divisors, characteristic 6) as a coefficient type"""
+    N = 6
+    __slots__ = ("v",)
+
+    def __init__(self, v):
+        self.v = int(v) % self.N
+
+    def _c(self, o):
+        if isinstance(o, Zn):
+            return o.v
+        if isinstance(o, (int, np.integer)) and not isinstance(o, bool):
+            return int(o)
+        return None
+
+    def __add__(self, o):
+        c = self._c(o)
+        return NotImplemented if c is None else Zn(self.v + c)
+    __radd__ = __add__
+
+    def __sub__(self, o):
+        c = self._c(o)
+        return NotImplemented if c is None else Zn(self.v - c)
+
+    def __rsub__(self, o):
+        c = self._c(o)
+        return NotImplemented if c is None else Zn(c - self.v)
+
+    def __mul__(self, o):
+        c = self._c(o)
+        return NotImplemented if c is None else Zn(self.v * c)
+    __rmul__ = __mul__
+
+    def __neg__(self):
+        return Zn(-self.v)
+
+    def __truediv__(self, o):
+        c = self._c(o)
+        if c is None:
+            return NotImplemented
+        c %= self.N
+        if c == 0:
+            raise ZeroDivisionError("division by zero in Z/6")
+        if c in (1, 5):
+            return Zn(self.v * c)           # 1 and 5 are their own inverses
+        raise TypeError("not a unit of Z/6")
+
+    def __eq__(self, o):
+        c = self._c(o)
+        return NotImplemented if c is None else self.v == c % self.N
+
+    def __ne__(self, o):
+        r = self.__eq__(o)
+        return r if r is NotImplemented else not r
+
+    def __hash__(self):
+        return hash(self.v)
+
+    def __bool__(self):
+        return self.v != 0
+
+    def __repr__(self):
+        return f"Zn({self.v})"
+
+
+class Z6MultiVectors(_ImplOps, Stream):
+    """multivectors and metrics over Z/6 — a commutative ring with zero divisors (2*3 = 0), where
+    products of non-zero coefficients get pruned: every division-free operation compared exactly
+    with the driver (`Fin 6` instance of the same generic model), ring laws on the real objects"""
+    name = "mv-z6"
+
+    @staticmethod
+    def cs(x):
+        return str(x.v if isinstance(x, Zn) else int(x) % 6)
+
+    def cases(self, rng, tier):
+        n = 300 if tier == "quick" else 5000
+        for _ in range(n):
+            dims = rng.randint(0, 4)
+
+            def mv(maxterms=4):
+                d = {}
+                for _ in range(rng.randint(0, maxterms)):
+                    d[rng.randrange(2 ** dims)] = rng.randint(0 if rng.random() < 0.1 else 1, 5)
+                return d
+            yield {"dims": dims, "metric": [rng.randint(0, 5) for _ in range(dims)],
+                   "a": mv(), "b": mv(), "c": mv(2), "n": rng.choice([-1, 0, 1, 2, 3, 4, 5]),
+                   "r": rng.randint(0, dims + 1)}
+
+    def request(self, pl):
+        m = "(" + " ".join(map(str, pl["metric"])) + ")"
+        a = "(" + " ".join(f"({int(k)} {v})" for k, v in pl["a"].items()) + ")"
+        b = "(" + " ".join(f"({int(k)} {v})" for k, v in pl["b"].items()) + ")"
+        return f"(ga-mvz6 {m} {pl['dims']} {a} {b} {pl['n']} {pl['r']})"
+
+    def _objs(self, pl):
+        from pymbolic.geometric_algebra import MultiVector, Space
+        dims = pl["dims"]
+        mm = np.zeros((dims, dims), dtype=object)
+        for i, g in enumerate(pl["metric"]):
+            mm[i, i] = Zn(g)
+        sp = Space(dims, mm)
+        return (sp, *[MultiVector({int(k): Zn(v) for k, v in pl[x].items()}, sp) for x in "abc"])
+
+    def run_impl(self, pl):
+        _sp, a, b, _c = self._objs(pl)
+        parts = self.all_ops(a, b, pl["dims"], pl["n"], pl["r"], False)
+        try:
+            a.inv()
+            parts[9] = "ok"
+        except (ZeroDivisionError, NotImplementedError, ValueError) as e:
+            parts[9] = type(e).__name__
+        except TypeError:
+            parts[9] = "ok"          # reached the division `coeff / nsqr`: the model says ok
+        return "(" + " ".join(parts) + ")"
+
+    def agree(self, model, impl, pl):
+        return "ok" if model == impl else self.agree_lists(model, impl)
+
+    def oracle(self, pl):
+        _sp, a, b, c = self._objs(pl)
+
+        def coeffs(m):
+            return {k: v.v if isinstance(v, Zn) else int(v) % 6
+                    for k, v in data_of(m).items() if v != 0}
+        if coeffs((a * b) * c) != coeffs(a * (b * c)):
+            return Failure("assoc", f"(a*b)*c != a*(b*c) over Z/6: {a!r} {b!r} {c!r}", pl)
+        if coeffs((a ^ b) ^ c) != coeffs(a ^ (b ^ c)):
+            return Failure("outer-assoc", "(a^b)^c != a^(b^c) over Z/6", pl)
+        if coeffs(a * (b + c)) != coeffs(a * b + a * c) or coeffs((a + b) * c) != coeffs(a * c + b * c):
+            return Failure("bilinear", "distributivity fails over Z/6", pl)
+        if coeffs((a * b).rev()) != coeffs(b.rev() * a.rev()):
+            return Failure("rev", "rev is not an anti-automorphism over Z/6", pl)
+        for nm, r in (("geometric", a * b), ("sum", a + b), ("dual", a.dual())):
+            if any(v == 0 for v in data_of(r).values()) or bool(r) != bool(coeffs(r)):
+                return Failure("result-eq-coeffwise", f"{nm} result {r!r} stores a zero", pl)
+        return None
+
+    def nontrivial_key(self, pl, model, impl):
+        return dumps([pl["dims"], pl["metric"], sorted(pl["a"].items()), sorted(pl["b"].items())]) \
+            if pl["a"] and pl["b"] else None
+
+# }}}
+
+
 class Perms(Stream):
     name = "permutation-signs"
 
@@ -327,6 +821,18 @@ def probes():
     res = [("mv-scalar-zero-stored", (not (z == 0)) or bool(MultiVector(0, sp)),
             "(e0 - e0) == 0 is False and bool(MultiVector(0)) is True: a scalar zero is stored as "
             "{0: 0} while arithmetic prunes zeros")]
+    from fractions import Fraction as F
+    sp3 = Space(3)
+    f0, f1, f2 = (MultiVector({1 << i: F(1)}, sp3) for i in range(3))
+    blade = (f0 + f1) ^ f2
+    try:
+        ok = (blade.inv() * blade) == 1
+        refused = not ok
+    except NotImplementedError:
+        refused = True
+    res.append(("inv-nonbasis-blade-refused", refused,
+                "((e0 + e1) ^ e2).inv() raises NotImplementedError('division by non-blades') although "
+                "the operand is a non-null 2-blade with inverse rev(B)/|B|^2"))
     return res
 
 
@@ -335,14 +841,15 @@ PROP = Prop(
     title="Multivectors obey the axioms of geometric (Clifford) algebra",
     lean_targets=["PV.Properties.C18"],
     theorems=[],
-    streams=[BladePairs(), MultiVectors(), Perms()],
+    streams=[BladePairs(), MultiVectors(), FractionMultiVectors(), Z6MultiVectors(), Perms()],
     probes=[probes],
     trusted_base=["Lean 4.33 kernel; axioms propext, Classical.choice, Quot.sound only",
                   "harness/props/c18.py (line protocol, list-based blade multiplication oracle)",
-                  "coefficients are integers in the model (weights and cocycles are proved over "
-                  "arbitrary commutative rings); floats/symbolic coefficients are not modelled"],
-    level_text='Lean theorems for ALL bitmaps (hence all dimensions, beyond the 0-5 of the property) and all diagonal integer metrics: the reordering sign is the inversion parity and satisfies the cocycle identity, metric weights satisfy theirs, hence the geometric and outer products of arbitrary multivectors are associative and bilinear (under Python == of the pruned dictionaries); basis vectors square to the metric and anticommute; the five other products are the stated grade parts; rev is an anti-automorphism, invol an automorphism; blade inverse; == and bool are coefficient-wise on pruned data. The model mirrors the code loop by loop and is tied by exhaustive blade pairs in dims 0-4 x metrics and random multivectors.',
-    level_note='Trusted: Lean kernel; harness. Multivector coefficients are integers in the model (weights/cocycles proved over arbitrary commutative rings); float and symbolic coefficients, non-diagonal metrics and dual/multi-term inverse have no theorem (correspondence and algebraic-law oracles only).',
-    technique='Lean 4 proofs (bit-parity bilinearity, cocycle, finitely-supported-function refinement of the dict product) + exhaustive blade-pair correspondence + list-based blade multiplication oracle',
+                  "the multivector model is generic in the coefficient type and proved for every "
+                  "commutative ring; the driver runs its Int, Rat (= Fraction) and Fin 6 (= Z/6) "
+                  "instances; floats and pymbolic expressions as coefficients are not run"],
+    level_text='Lean theorems for ALL bitmaps (hence all dimensions, beyond the 0-5 of the property), all diagonal metrics and coefficients in ANY commutative ring with decidable equality (integers, exact rationals, polynomial rings, Z/n): the reordering sign is the inversion parity and satisfies the cocycle identity, metric weights satisfy theirs, hence the geometric and outer products of arbitrary multivectors are associative and bilinear (under Python == of the pruned dictionaries); basis vectors square to the metric and anticommute; the five other products are the stated grade parts; rev is an anti-automorphism, invol an automorphism; norm_squared is the scalar part of rev(A)*A = sum of (metric of the factors) c^2; inv returns exactly on one-item dicts and on vectors with non-zero norm^2 and is then a two-sided inverse (A.inv()*A == 1 over a field), (A/B)*B = A; dual is linear, dual(dual A) = (-1)^(n(n-1)/2) det(g) A, I*I likewise; grade projections are idempotent, orthogonal, linear and sum to the identity; gen_blades, as_scalar, xproject; A**n is the n-fold product (the dicts modulo equal formal sums form a monoid); == , bool and hash are coefficient-wise on pruned data. Which zero test is needed is stated exactly: coefficient-level facts need a sound is_zero only, representation-level facts (==, bool, hash) a complete one. The model mirrors the code loop by loop and is tied by exhaustive blade pairs in dims 0-4 x metrics, random integer multivectors, Fraction multivectors through every operation, and multivectors over Z/6.',
+    level_note='Trusted: Lean kernel; harness. Not covered by a theorem: float coefficients (close_to, zap_near_zeros, __abs__), pymbolic expressions as coefficients (their == is structural, is_zero incomplete: only the coefficient-level "sound zero test" theorems apply), non-diagonal metrics (the code raises NotImplementedError for all products but the outer one), numpy-array constructor beyond ofVector, stringification, map/componentwise.',
+    technique='Lean 4 proofs (bit-parity bilinearity, cocycle, finitely-supported-function refinement of the dict product over any commutative ring, quotient monoid for **) + exhaustive blade-pair correspondence + exact Fraction / Z6 correspondence of every operation + list-based blade multiplication oracle',
     design_ref="DESIGN.md §4 C18",
 )
